@@ -453,7 +453,7 @@ impl AddrGen {
 
     fn mutate(&self, rng: &mut Prng, a: &str) -> String {
         let mut cs: Vec<char> = a.chars().collect();
-        let ins: Vec<char> = ":,=;pux /\u{e9}".chars().collect();
+        let ins: Vec<char> = ":,=;pux /\u{e9}%\\\"'~$&?#@+*!^`|<>()[]{}\t\n\r.-_0A".chars().collect();
         match rng.below(3) {
             0 if !cs.is_empty() => {
                 let i = rng.below(cs.len() as u64) as usize;
@@ -519,6 +519,31 @@ fn addr_phase(out: &mut Out, rng: &mut Prng, cfg: &Cfg) {
     }
     for a in &fixed {
         addr_case(out, a, "addr_fixed");
+    }
+    // every ASCII character (NUL cannot be in the environment) alone, followed by one and by two more characters, at the
+    // end / the start / the middle of a value and inside a key: whatever special meaning a parser may give to a character
+    // (escapes, quotes, separators), the address is taken literally or refused - never a panic
+    {
+        let e0 = g.existing[0].clone();
+        for c in 1u8..=0x7f {
+            let c = c as char;
+            for tail in ["", "4", "41", "g", "zz", "%", "\u{e9}"] {
+                let x = format!("{}{}", c, tail);
+                for a in [
+                    format!("unix:abstract=/tmp/x{}", x),
+                    format!("unix:abstract={}/tmp/x", x),
+                    format!("unix:abstract=/tmp/{}x,guid=00ff", x),
+                    format!("unix:path={}{}", e0, x),
+                    format!("unix:path={}{},guid=00ff", e0, x),
+                    format!("unix:path={}{}", x, e0),
+                    format!("unix:pa{}th={}", x, e0),
+                    format!("unix:guid=0{}0,path={}", x, e0),
+                    format!("un{}ix:path={}", x, e0),
+                ] {
+                    addr_case(out, &a, "addr_every_char");
+                }
+            }
+        }
     }
     let n = if cfg.thorough { 30000 } else { 3000 };
     for _ in 0..n {
